@@ -189,3 +189,22 @@ def shared_state_check(w: World) -> None:
         if id(mv) not in repaired:
             repaired[id(mv)] = memoryview(_SHARED[key])
         setattr(sys.modules[mname], name, repaired[id(mv)])
+
+
+def real_fds_under(prefix: str) -> List[str]:
+    """Real (not simulated) descriptors of this process that refer to files below `prefix`: files the code under test
+    opened with the real open()/os.open() and has not closed."""
+    import os
+    out = []
+    try:
+        names = os.listdir('/proc/self/fd')
+    except OSError:
+        return []
+    for n in names:
+        try:
+            tgt = os.readlink('/proc/self/fd/' + n)
+        except OSError:
+            continue
+        if tgt.startswith(prefix):
+            out.append(tgt[len(prefix):] or '/')
+    return sorted(out)
